@@ -46,20 +46,26 @@ def make_items(seed, tier):
         it["id"] = len(items)
         items.append(it)
 
-    # the bundled examples, all four shells
+    # the bundled examples, all four shells (quick: the 1.5 MB mygit scripts get sampled, not enumerated, fault positions
+    # except for one seeded shell -- process creation on this VM is ~70 runs/s in total, see DESIGN.md)
+    full_git = rng.sub("ex/gitshell").choice(gram.SHELLS)
     for name in ("hello.usage", "mygrep.usage", "mygit.usage"):
         with open(os.path.join(build.REPO, "examples", name), "rb") as f:
             text = proc.enc(f.read())
         for sh in gram.SHELLS:
             r = rng.sub("ex/%s/%s" % (name, sh))
-            add("example:" + name, text, r, shell=sh, dots="none" if name != "hello.usage" else "both")
+            fm = "enumerate"
+            if quick and name == "mygit.usage" and sh != full_git:
+                fm = "sample"
+            add("example:" + name, text, r, shell=sh, dots="none" if name != "hello.usage" else ("both" if sh == "bash" or not quick else "none"),
+                fault_mode=fm)
     # one big example with dot files (sampled dot-file fault positions)
     with open(os.path.join(build.REPO, "examples", "mygrep.usage"), "rb") as f:
         add("example:mygrep+dots", proc.enc(f.read()), rng.sub("ex/dots"), shell="bash", dots="both", dest_mode="existing")
 
-    n_valid = 24 if quick else 160
-    n_mistake = 30 if quick else 200
-    n_warn = 10 if quick else 60
+    n_valid = 14 if quick else 160
+    n_mistake = len(gram.MISTAKE_KINDS) if quick else 8 * len(gram.MISTAKE_KINDS)
+    n_warn = 6 if quick else 60
     n_mut = 150 if quick else 2500
     n_soup = 30 if quick else 400
 
@@ -67,13 +73,13 @@ def make_items(seed, tier):
         r = rng.sub("valid/%d" % i)
         size = r.weighted([(3, 4), (4, 10), (2, 25), (1, 60)])
         add("valid", gram.gen_grammar(r, size), r)
-    for i in range(3 if quick else 12):
+    for i in range(2 if quick else 12):
         r = rng.sub("big/%d" % i)
         add("valid-big", gram.gen_big_grammar(r), r)
     for i in range(n_mistake):
         r = rng.sub("mistake/%d" % i)
         base = gram.gen_grammar(r, r.range(2, 10))
-        kind, text = gram.plant_mistake(r, base)
+        kind, text = gram.plant_mistake(r, base, gram.MISTAKE_KINDS[i % len(gram.MISTAKE_KINDS)])
         add("mistake:" + kind, text, r)
     for i in range(n_warn):
         r = rng.sub("warn/%d" % i)
@@ -358,14 +364,14 @@ def make_plans(item, R, rng, tier):
             plans.append(rng.choice(cand))
         return plans
     for role, rp in by_role.items():
-        lim = 64 if role in ("input", "dest", "stderr", "stdout") else (24 if not full else 160)
+        lim = 64 if role in ("input", "dest", "stderr", "stdout") else (8 if not full else 160)
         if not full and len(rp) > 64:
             lim = 40
         for p in sampled_positions(rp, rng.sub("pos/" + role), lim):
             plans.extend(single_fault_plans(p, rng, full))
     # sampled double faults: one entry from each of two different positions
     singles = [pl for pl in plans if len(pl) == 1]
-    ndouble = min(len(singles), 12 if not full else 60)
+    ndouble = min(len(singles), 8 if not full else 60)
     for _ in range(ndouble):
         a = rng.choice(singles)
         b = rng.choice(singles)
